@@ -42,6 +42,12 @@ def subgroup(D, name):
     if name == "inv":
         # {I, -I}: the smallest non-trivial group -- cheap enough to reach large seed bases (M**D * D**k in the hundreds)
         return [[[(1 if i == j else 0) * s for j in range(D)] for i in range(D)] for s in (1, -1)]
+    if name == "swap":
+        # {I, swap of the first two axes}: a reflection (det -1) without any negative entry
+        e = [[1 if i == j else 0 for j in range(D)] for i in range(D)]
+        sw = [list(r) for r in e]
+        sw[0], sw[1] = sw[1], sw[0]
+        return [e, sw]
     if name == "C4" and D == 2:
         r = [[0, -1], [1, 0]]
         out = [[[1, 0], [0, 1]]]
@@ -195,6 +201,90 @@ def worker(job):
         problems.append(("independence", "the %d generated filters span only a %d-dimensional space (duplicates or dependent filters)" % (n, rk), None))
     if rk != want:
         problems.append(("completeness", "the family spans %d dimensions but the space of invariant filters has dimension %d (character formula): %s" % (rk, want, "filters are missing" if rk < want else "too many"), None))
+    return dict(cfg=cfg, problems=problems)
+
+
+def wrapper_worker(job):
+    """get_invariant_filters_dict / _list decided semantically: the wrappers are abstractly interpreted with the generator
+    replaced by a recording stub that returns, for (M, k, parity, D, operators), a small family of concrete filters that
+    depends on the parity exactly when the group contains an element of determinant -1 (for a group of pure rotations the
+    invariant families of both parities coincide, so a wrapper may share them; for any other group it may not).  Every
+    dictionary entry (D, M, k, parity) must hold filters of that declared type whose data are non-zero multiples of the
+    stub's family for exactly those arguments, all requested combinations must be present, and the list variant must
+    hold all of them."""
+    repo, D, gname, Ms, ks, parities = job
+    it, w = get_interp(repo)
+    common = it.get_module(COMMON_MOD)
+    geom = it.get_module(GEOM)
+    G = subgroup(D, gname)
+    ops = [A.as_arr(g) for g in G]
+    has_reflection = any(det(g) == -1 for g in G)
+    cfg = dict(D=D, group=gname, order=len(G), Ms=list(Ms), ks=list(ks), parities=list(parities), group_has_reflections=has_reflection)
+    problems = []
+    ns = common.__dict__["ns"]
+    calls = []
+
+    def family(M, k, parity):
+        p_eff = (parity % 2) if has_reflection else 0
+        shape = (M,) * D + (D,) * k
+        n = 1
+        for s_ in shape:
+            n *= s_
+        out = []
+        for j in range(2):
+            # distinct, nowhere-zero, not sign-symmetric integer data that encodes (M, k, effective parity, j)
+            vals = [((i * 7 + 3 * j + 11 * p_eff + 5 * k + M) % 13) + 1 + (i % 3) for i in range(n)]
+            out.append(A.Arr(shape, vals, "float"))
+        return out
+
+    def stub(M, k, parity, D_, operators, scale="normalize"):
+        calls.append((M, k, parity, D_, scale))
+        return [geom.GeometricFilter(d, parity, D_) for d in family(M, k, parity)]
+
+    saved = ns.get("get_unique_invariant_filters")
+    ns["get_unique_invariant_filters"] = stub
+    try:
+        res = attempt(lambda: common.get_invariant_filters_dict(list(Ms), list(ks), list(parities), D, ops, "one"))
+        lres = attempt(lambda: common.get_invariant_filters_list(list(Ms), list(ks), list(parities), D, ops, "one"))
+    finally:
+        ns["get_unique_invariant_filters"] = saved
+    if isinstance(res, Rejected):
+        problems.append(("wrapper-rejected", "get_invariant_filters_dict rejected: %s" % res.exc, None))
+        return dict(cfg=cfg, problems=problems)
+    allf = res[0] if isinstance(res, tuple) else res
+
+    def proportional(d, ref):
+        if not isinstance(d, A.Arr) or d.shape != ref.shape or not d.is_concrete():
+            return False
+        c = Fraction(d.elems[0]) / Fraction(ref.elems[0])
+        return c != 0 and all(Fraction(x) == c * Fraction(y) for x, y in zip(d.elems, ref.elems))
+
+    n_total = 0
+    for M in Ms:
+        for k in ks:
+            for parity in parities:
+                key = (D, M, k, parity)
+                if key not in allf:
+                    problems.append(("wrapper", "the dictionary has no entry for (D, M, k, parity) = %s although it was requested" % (key,), None))
+                    continue
+                want = family(M, k, parity)
+                got = list(allf[key])
+                n_total += len(want)
+                if len(got) != len(want):
+                    problems.append(("wrapper", "entry %s holds %d filters; the family generated for (M=%d, k=%d, parity=%d) under this group has %d" % (key, len(got), M, k, parity, len(want)), None))
+                    continue
+                for fi, (f, ref) in enumerate(zip(got, want)):
+                    if (f.k, f.parity % 2, f.D) != (k, parity % 2, D):
+                        problems.append(("wrapper", "entry %s: filter %d is declared (k=%r, parity=%r, D=%r)" % (key, fi, f.k, f.parity, f.D), None))
+                        break
+                    if not proportional(f.data, ref):
+                        problems.append(("wrapper", "entry %s: filter %d is not (a non-zero multiple of) the family generated for (M=%d, k=%d, parity=%d) with these operators%s" % (key, fi, M, k, parity, "; the group contains reflections, so the families of the two parities differ and one cannot be derived from the other by relabelling" if has_reflection else ""), None))
+                        break
+    if isinstance(lres, Rejected):
+        problems.append(("wrapper-rejected", "get_invariant_filters_list rejected: %s" % lres.exc, None))
+    elif len(list(lres)) != n_total:
+        problems.append(("wrapper", "get_invariant_filters_list returns %d filters, the requested families hold %d" % (len(list(lres)), n_total), None))
+    cfg["generator_calls"] = len(calls)
     return dict(cfg=cfg, problems=problems)
 
 
@@ -504,5 +594,22 @@ def run(ctx):
             ctx.add(Finding("C03", "C03.AXI.rectify", "GeometricFilter.rectify", "%s (%d of the swept configurations fail)" % (what, len(items)), pm.path(GI_MOD), fnr.lineno, cfg, kind))
             continue
         ctx.add(Finding("C03", "C03.AXI." + kind, "get_unique_invariant_filters", "%s (%d of the swept configurations fail)" % (what, len(items)), path, fn.lineno, cfg, kind))
+    # the dict / list wrappers, semantically (generator stubbed): every requested (M, k, parity) for every kind of group
+    wj = []
+    for D in (2, 3):
+        for gname in ("B", "rot", "C2", "trivial", "swap", "inv") + (("C4",) if D == 2 else ()):
+            wj.append((ctx.repo, D, gname, (3,), (0, 1), (0, 1)))
+            wj.append((ctx.repo, D, gname, (2, 3), (1,), (1, 0)))
+            if th:
+                wj.append((ctx.repo, D, gname, (3,), (0, 1, 2), (1,)))
+    wby = []
+    for job, r in ctx.pairs(wrapper_worker, wj):
+        ev.obligation("wrapper", not r["problems"], tuple(str(v) for v in r["cfg"].values()), sample=r["cfg"] if r["cfg"]["group"] == "swap" and r["cfg"]["D"] == 2 else None)
+        for kind, what, site in r["problems"]:
+            wby.append((kind, what, r["cfg"]))
+    if wby:
+        kind, what, cfg = wby[0]
+        node = pm.func(COMMON_MOD, "get_invariant_filters_dict")
+        ctx.add(Finding("C03", "C03.AXI.wrapper", "get_invariant_filters_dict", "%s (%d reports over the swept groups / requests)" % (what, len(wby)), path, node.lineno, cfg, "wrapper"))
     ev.instances("C03.AXI.obligations", ev.obligations, floor=70 if ctx.tier == "quick" else 250)
     ev.exhaustive = th
